@@ -89,6 +89,17 @@ LEVEL_TEXT = (
     "[123,235) K.")
 
 
+# the hand transcription of the two correlations used by the Snowing 1D/2D models (SnowModel/EvapFormulas.lean)
+# is proved equal to the generated text, so those models inherit the regeneration tie
+THEOREMS = THEOREMS + [
+    dict(name="Snow.GenTie.Evap.vapour_pressure_liquid", clause="hand transcription Evap.vapourPressureLiquid (used by "
+         "the Snowing 1D/2D models) = generated vapour_pressure_liquid, every numeric instance", strength="tie"),
+    dict(name="Snow.GenTie.Evap.vapour_pressure_solid", clause="hand transcription Evap.vapourPressureSolid = generated "
+         "vapour_pressure_solid, every numeric instance", strength="tie"),
+]
+extra_lean_targets = list(globals().get("extra_lean_targets", [])) + ["SnowProofs.Props.GenTie.Evap"]
+
+
 def regenerate():
     translate.regenerate_evap()
 
